@@ -5,6 +5,7 @@ pub mod enc;
 pub mod esc;
 pub mod hash;
 pub mod nsprobe;
+pub mod pass;
 pub mod lex;
 pub mod mem;
 pub mod memrw;
@@ -25,6 +26,7 @@ pub fn find(name: &str) -> Option<LaneFn> {
         "esc" => esc::run,
         "hash" => hash::run,
         "nsprobe" => nsprobe::run,
+        "pass" => pass::run_lane,
         "lex" => lex::run,
         "mem" => mem::run,
         "memrw" => memrw::run,
